@@ -9,7 +9,8 @@
 (***************************************************************************)
 EXTENDS RedisKV, Json
 
-CONSTANTS MaxLen
+CONSTANTS MaxLen,
+          CtxFrom     \* 0: no context dimension; i > 0: from step i on only Ctx-form calls with a dead context
 
 VARIABLES hist, fin
 
@@ -20,11 +21,11 @@ GInit == Init /\ hist = <<>> /\ fin = FALSE
 \* (the single closing step makes TLC's simulator print a trace once, not once per possible last command)
 GNext ==
   \/ /\ Len(hist) < MaxLen
-     /\ Next
+     /\ IF CtxFrom > 0 /\ Len(hist) + 1 >= CtxFrom THEN CtxNext ELSE PlainNext(MaxLen - Len(hist))
      /\ ~(out.c.op = "advance" /\ out'.c.op = "advance")
      /\ hist' = Append(hist, out')
      /\ UNCHANGED fin
-  \/ /\ Len(hist) = MaxLen /\ ~fin
+  \/ /\ Len(hist) = MaxLen /\ ~fin /\ pipe.n = 0
      /\ fin' = TRUE
      /\ UNCHANGED <<vars, hist>>
 
